@@ -5,6 +5,7 @@ package dastard
 // the outcome does not depend on timing.  Nothing is judged here; AbacoTrace.tla judges the trace.
 
 import (
+	"strings"
 	"runtime"
 	"fmt"
 	"math/rand"
@@ -35,6 +36,9 @@ type abScen struct {
 	Flush   bool      `json:"flush"` // append a tick in which every group receives its final packet
 	NProd   int       `json:"nprod"` // number of producers the groups are spread over (default 1)
 	RealRun bool      `json:"realrun"`
+	// StallTicks > 0: the block consumer does not take anything until the producer has handed out this many ticks, and
+	// the hand-off channel has its production capacity (100): the reader meets a full channel
+	StallTicks int `json:"stallticks"`
 }
 
 type abProducer struct {
@@ -247,13 +251,17 @@ func abRun(id int, sc *abScen) {
 	}
 	as.buffersChan = make(chan AbacoBuffersType, 4000)
 	as.readPeriod = 2 * time.Millisecond
+	if sc.StallTicks > 0 {
+		as.buffersChan = make(chan AbacoBuffersType, 100)
+		as.readPeriod = 5 * time.Millisecond // (getNextBlock's own panic timer is capacity x read period = 0.5 s)
+	}
 	panicked := make(chan any, 1)
 	readerDone := make(chan struct{})
 	go func() {
 		defer close(readerDone)
 		defer func() {
 			if r := recover(); r != nil {
-				panicked <- r
+				panicked <- r // (readerMainLoop closes the hand-off channel as it goes: the consumer drains it and finishes)
 			}
 		}()
 		as.readerMainLoop()
@@ -272,6 +280,16 @@ func abRun(id int, sc *abScen) {
 		b    *dataBlock
 	}
 	var blocks []blk
+	for k := 0; sc.StallTicks > 0 && k < 2000; k++ { // the stalled consumer
+		prods[0].mu.Lock()
+		n := prods[0].next
+		prods[0].mu.Unlock()
+		if n >= sc.StallTicks || len(as.buffersChan) == cap(as.buffersChan) {
+			time.Sleep(4 * as.readPeriod)
+			break
+		}
+		time.Sleep(time.Millisecond)
+	}
 	for {
 		ch := as.getNextBlock()
 		b, ok := <-ch
@@ -335,7 +353,10 @@ func abRun(id int, sc *abScen) {
 			vEmit(vmap{"ev": "Block", "first": first, "n": b.nSamp, "dropped": dropped, "data": data})
 		}
 	}
-	if pan != nil {
+	if pan != nil && sc.StallTicks > 0 && strings.Contains(fmt.Sprint(pan), "buffersChan full") {
+		// the reader's deliberate fail-stop when the consumer is 100 buffers behind: what was handed over before is judged
+		vEmit(vmap{"ev": "FailStop", "msg": fmt.Sprint(pan)})
+	} else if pan != nil {
 		vEmit(vmap{"ev": "Panic", "msg": fmt.Sprint(pan)})
 	}
 	left := make([][]int, ng)
@@ -416,12 +437,46 @@ func abRandom(rng *rand.Rand) abScen {
 	return sc
 }
 
+// abStallScen: packets arrive tick after tick without loss while the block consumer is stalled for more ticks than the
+// hand-off channel holds buffers; then it drains.
+func abStallScen(rng *rand.Rand) abScen {
+	ng := 1 + rng.Intn(2)
+	sc := abScen{Origin: "stalled-consumer", Flush: true, NProd: 1, StallTicks: 103 + rng.Intn(6)}
+	first := 0
+	for gi := 0; gi < ng; gi++ {
+		sc.Groups = append(sc.Groups, abGroup{First: first, Nch: 1 + rng.Intn(2), Fpp: 1 + rng.Intn(2), Bits: 16, Sample: []int{0, 1}})
+		first += sc.Groups[gi].Nch
+	}
+	for gi := range sc.Groups {
+		sc.Groups[gi].Fpp = sc.Groups[0].Fpp
+	}
+	sn := 1
+	for t := 0; t < 125; t++ {
+		sn++
+		tick := make([][]int, ng)
+		for gi := range tick {
+			tick[gi] = []int{sn}
+		}
+		sc.Ticks = append(sc.Ticks, tick)
+	}
+	return sc
+}
+
 func TestVerifAbaco(t *testing.T) {
 	var scens []abScen
 	vLoadScen(&scens)
 	rng := vRng()
 	for i := 0; i < vNRandom; i++ {
 		scens = append(scens, abRandom(rng))
+	}
+	if vNRandom > 0 && !abNoSync {
+		nst := 2
+		if os.Getenv("VERIF_TIER") != "quick" {
+			nst = 12
+		}
+		for i := 0; i < nst; i++ {
+			scens = append(scens, abStallScen(rng))
+		}
 	}
 	for i := range scens {
 		abRun(i+1, &scens[i])
